@@ -134,13 +134,18 @@ class wrapper(dictattr):
         else:
             kw = kwargs
         f = function
+        above = []
         while isinstance(f, wrapper):
             if type(f.function) == type(self):
                 kw = f.function._kwargs
+                kw.pop('cache', None) ## a memo kept below other layers, or through the removed layer, belongs to a different function
                 kw.update(kwargs)
                 f[_function] = f.function.function
+                for w in above + [f]:
+                    w.pop('cache', None)
             else:
                 f[_function] = copy(f.function) ## descend into a private copy: never rewire a wrapper the caller still holds
+                above.append(f)
                 f = f.function
 
         super(wrapper, self).__init__(*args, **kw)
